@@ -75,6 +75,14 @@ impl Wake for CommandWaker {
         crate::verif::point("cw_send");
         let _ = self.ready_queue.send(self.task_id);
         #[cfg(crux_verif)]
+        crate::verif::ev(
+            "wake",
+            Arc::as_ptr(&self.parent_waker) as usize,
+            self.task_id.0,
+            0,
+            0,
+        );
+        #[cfg(crux_verif)]
         crate::verif::point("cw_woken");
         self.woken.store(true, Ordering::Release);
         #[cfg(crux_verif)]
@@ -155,9 +163,13 @@ pub(crate) enum TaskState {
 impl<Effect, Event> Command<Effect, Event> {
     // Run all tasks until all of them are pending
     pub(crate) fn run_until_settled(&mut self) {
+        #[cfg(crux_verif)]
+        self.verif_ev("settle", self.tasks.len(), 0, 0);
         if self.was_aborted() {
             self.tasks.clear();
 
+            #[cfg(crux_verif)]
+            self.verif_ev("cleared", self.effects.len(), self.events.len(), 0);
             return;
         }
 
@@ -171,6 +183,8 @@ impl<Effect, Event> Command<Effect, Event> {
             while let Ok(task_id) = self.ready_queue.try_recv() {
                 #[cfg(crux_verif)]
                 crate::verif::point("cr_task");
+                #[cfg(crux_verif)]
+                self.verif_ev("pop", task_id.0, 0, 0);
                 match self.run_task(task_id) {
                     TaskState::Missing => {
                         // The task has been evicted because it completed.  This can happen when
@@ -192,6 +206,18 @@ impl<Effect, Event> Command<Effect, Event> {
                 };
             }
         }
+        #[cfg(crux_verif)]
+        self.verif_ev(
+            "settled",
+            self.effects.len(),
+            self.events.len(),
+            self.tasks.len(),
+        );
+    }
+
+    #[cfg(crux_verif)]
+    pub(crate) fn verif_ev(&self, name: &'static str, a: usize, b: usize, d: usize) {
+        crate::verif::ev(name, Arc::as_ptr(&self.waker) as usize, a, b, d);
     }
 
     pub(crate) fn run_task(&mut self, task_id: TaskId) -> TaskState {
@@ -218,6 +244,8 @@ impl<Effect, Event> Command<Effect, Event> {
 
         #[cfg(crux_verif)]
         crate::verif::point("ct_poll");
+        #[cfg(crux_verif)]
+        crate::verif::ev("poll", Arc::as_ptr(&self.waker) as usize, task_id.0, 0, 0);
 
         let result = match task.future.as_mut().poll(context) {
             Poll::Pending => TaskState::Suspended,
@@ -245,6 +273,14 @@ impl<Effect, Event> Command<Effect, Event> {
         #[cfg(crux_verif)]
         crate::verif::point("ct_count");
         let task_is_ready = arc_waker.woken.load(Ordering::Acquire);
+        #[cfg(crux_verif)]
+        crate::verif::ev(
+            "polled",
+            Arc::as_ptr(&self.waker) as usize,
+            task_id.0,
+            usize::from(result == TaskState::Completed),
+            usize::from(no_other_wakers) * 2 + usize::from(task_is_ready),
+        );
         if result == TaskState::Suspended && no_other_wakers && !task_is_ready {
             return TaskState::Cancelled;
         }
@@ -255,6 +291,8 @@ impl<Effect, Event> Command<Effect, Event> {
     pub(crate) fn spawn_new_tasks(&mut self) {
         while let Ok(task) = self.spawn_queue.try_recv() {
             let task_id = self.tasks.insert(task);
+            #[cfg(crux_verif)]
+            self.verif_ev("spawn", task_id, 0, 0);
 
             self.ready_sender
                 .send(TaskId(task_id))
